@@ -90,11 +90,14 @@ def coverCount (x : Nat) : List VDigits → Nat
 
 /-! ### Query specification over the log of timestamped sets -/
 
-/-- A live set event: row, column, timestamp (`none` = set without timestamp). -/
+/-- A live set event: row, column, timestamp (`none` = set without timestamp), and whether the
+write also went to the standard view (`SetBit`/timestamped `Import`: unless the field has none;
+untimestamped `Import`: always; a clear-`Import` takes it away again). -/
 structure Ev where
   row : Nat
   col : Nat
   ts : Option Civil
+  std : Bool := true
 deriving Repr, Inhabited, DecidableEq
 
 def inRange (s e : Option Civil) (t : Civil) : Bool :=
@@ -113,24 +116,35 @@ def rowRange (log : List Ev) (r : Nat) (s e : Civil) : List Nat :=
 
 /-- Columns of row `r` (standard view). -/
 def rowStd (log : List Ev) (r : Nat) : List Nat :=
-  sortDedup ((log.filter (fun ev => ev.row == r)).map (·.col))
+  sortDedup ((log.filter (fun ev => ev.row == r && ev.std)).map (·.col))
 
 /-- Rows having a column set with a timestamp in the (possibly half-open) range. -/
 def rowsRange (log : List Ev) (s e : Option Civil) : List Nat :=
   sortDedup ((log.filter (fun ev =>
     match ev.ts with | none => false | some t => inRange s e t)).map (·.row))
 
-def rowsAll (log : List Ev) : List Nat := sortDedup (log.map (·.row))
+def rowsAll (log : List Ev) : List Nat := sortDedup ((log.filter (·.std)).map (·.row))
 
 /-- The views that must hold (r, c): one per unit of the quantum for every live timestamp, and the
-standard view (unless the field has none). -/
-def viewsWithBit (q : Quantum) (noStd : Bool) (log : List Ev) (r c : Nat) : List VName :=
+standard view when a live write went there. -/
+def viewsWithBit (q : Quantum) (log : List Ev) (r c : Nat) : List VName :=
   let evs := log.filter (fun ev => ev.row == r && ev.col == c)
-  let std : List VName := if evs.isEmpty || noStd then [] else [.std]
+  let std : List VName := if evs.any (·.std) then [.std] else []
   let tvs : List VName := evs.flatMap (fun ev =>
     match ev.ts with
     | none => []
     | some t => (viewsByTime t q).map .tv)
   (std ++ tvs).eraseDups
+
+/-- Log after a set-`Import` of `bits` (each written like `SetBit`, except that a bit without
+timestamp goes to the standard view even when the field was created without one). -/
+def importSet (noStd : Bool) (log : List Ev) (bits : List (Nat × Nat × Option Civil)) : List Ev :=
+  log ++ bits.map (fun b => ⟨b.1, b.2.1, b.2.2, b.2.2.isNone || !noStd⟩)
+
+/-- Log after a clear-`Import` of `bits` (no timestamps): it only touches the standard view, so the
+listed bits stay live in their time views. -/
+def importClear (log : List Ev) (bits : List (Nat × Nat × Option Civil)) : List Ev :=
+  (log.map (fun ev => if bits.any (fun b => b.1 == ev.row && b.2.1 == ev.col) then { ev with std := false } else ev)).filter
+    (fun ev => ev.std || ev.ts.isSome)
 
 end PV.C18.Spec
